@@ -177,7 +177,11 @@ theorem grow_updateStateWithServiceResult (env : Env) (t : Tetraplet) (ah : Stri
       sameobs
     · intro _; exact rel_throwE GP _
   · split
-    · exact rel_throwE GP _
+    · apply rel_bind GP
+      · apply rel_modifyCtx
+        intro c
+        sameobs
+      · intro _; exact rel_throwE GP _
     · apply rel_modifyER GP
       intro c c' h
       simp only [bind, Res.bind] at h
